@@ -227,6 +227,28 @@ Forward(sh) ==
    ret     |-> RetView(sh.ret)]
 
 (***************************************************************************)
+(* C07 over the receiver kinds of the generated impl (def_method_impl has  *)
+(* one code path for &self / by-value / Rc / Arc receivers and another for *)
+(* &mut self / Pin<&mut Self>).  One method m(recv, a: u8) -> u32 with or  *)
+(* without a default body (7000) and with or without a registered real     *)
+(* function (9000); a strict or partial mock whose only clause, if any, is *)
+(* `each_call(matching!(1)).returns(5000)`; one call with a = 1 or a = 2.  *)
+(* The statement's decision table:                                         *)
+(***************************************************************************)
+FallbackShapes == [recv : Recvs, dflt : BOOLEAN, real : BOOLEAN, partial : BOOLEAN, mention : {"none", "unmatched", "matched"}]
+FallbackExpected(sh) ==
+  CASE sh.mention = "matched" -> [k |-> "ret", v |-> 5000, class |-> ""]
+    [] sh.mention = "none" ->
+         IF sh.dflt THEN [k |-> "ret", v |-> 7000, class |-> ""]
+         ELSE IF sh.partial /\ sh.real THEN [k |-> "ret", v |-> 9000, class |-> ""]
+         ELSE IF sh.partial THEN [k |-> "panic", v |-> 0, class |-> "CannotUnmock"]
+         ELSE [k |-> "panic", v |-> 0, class |-> "NoMockImplementation"]
+    [] OTHER -> \* mentioned, but every pattern rejects the arguments: the default body plays no part
+         IF ~sh.partial THEN [k |-> "panic", v |-> 0, class |-> "NoMatchingCallPatterns"]
+         ELSE IF sh.real THEN [k |-> "ret", v |-> 9000, class |-> ""]
+         ELSE [k |-> "panic", v |-> 0, class |-> "CannotUnmock"]
+
+(***************************************************************************)
 (* C16: unmock_with.  A trait with n methods of one signature              *)
 (* (recv, a: u8, b: u8) -> u32 (same types, so that a permuted or ignored parameter list still compiles), an optional provided associated function *)
 (* without receiver declared first (it is not mockable but still occupies  *)
